@@ -4,6 +4,8 @@ import (
 	"fmt"
 	"go/token"
 	"go/types"
+	"sort"
+	"strings"
 
 	"golang.org/x/tools/go/ssa"
 )
@@ -30,12 +32,12 @@ func init() {
 			Old: "\tif err != nil {\n\t\treturn err.msgf(\"parseEvents fail in pos: %+v\", err)\n\t}\n\treturn nil\n", New: "\treturn err\n",
 			Expect: "C06-R2"},
 		Variant{ID: "c06-r3-ignored-rows-error", Prop: "C06", File: "streamer.go",
-			Old: "\t\t\ttranEvent, err := appendInsertEventFromRows(tc, &rows, int64(ev.Timestamp()))\n\t\t\tif err != nil {\n\t\t\t\treturn pos, newError(err)\n\t\t\t}\n",
-			New: "\t\t\ttranEvent, _ := appendInsertEventFromRows(tc, &rows, int64(ev.Timestamp()))\n",
+			Old:    "\t\t\ttranEvent, err := appendInsertEventFromRows(tc, &rows, int64(ev.Timestamp()))\n\t\t\tif err != nil {\n\t\t\t\treturn pos, newError(err)\n\t\t\t}\n",
+			New:    "\t\t\ttranEvent, _ := appendInsertEventFromRows(tc, &rows, int64(ev.Timestamp()))\n",
 			Expect: "C06-R3 errcheck@parseEvents"},
 		Variant{ID: "c06-r3-logged-not-returned", Prop: "C06", File: "streamer.go",
-			Old: "\t\t\tif info, err = s.tableMapper.MysqlTable(name); err != nil {\n\t\t\t\treturn pos, newError(err).msgf(\"parseEvents MysqlTable fail. table: %v\", err)\n\t\t\t}\n",
-			New: "\t\t\tif info, err = s.tableMapper.MysqlTable(name); err != nil {\n\t\t\t\t_log.Errorf(\"parseEvents MysqlTable fail. table: %v\", err)\n\t\t\t\tcontinue\n\t\t\t}\n",
+			Old:    "\t\t\tif info, err = s.tableMapper.MysqlTable(name); err != nil {\n\t\t\t\treturn pos, newError(err).msgf(\"parseEvents MysqlTable fail. table: %v\", err)\n\t\t\t}\n",
+			New:    "\t\t\tif info, err = s.tableMapper.MysqlTable(name); err != nil {\n\t\t\t\t_log.Errorf(\"parseEvents MysqlTable fail. table: %v\", err)\n\t\t\t\tcontinue\n\t\t\t}\n",
 			Expect: "C06-R3 errcheck@parseEvents"},
 		Variant{ID: "c06-r4-err-packet-as-eof", Prop: "C06", File: "slave_connection.go",
 			Old: "\t\treturn nil, newError(s.dc.HandleErrorPacket(buf)).msgf(\"fetch error packet\")", New: "\t\t_ = s.dc.HandleErrorPacket(buf)\n\t\treturn nil, newError(errStreamEOF).msgf(\"fetch error packet\")",
@@ -44,8 +46,8 @@ func init() {
 			Old: "\t\treturn nil, newError(err).msgf(\"readPacket fail.\")", New: "\t\t_ = err\n\t\treturn nil, newError(errStreamEOF).msgf(\"readPacket fail.\")",
 			Expect: "C06-R4"},
 		Variant{ID: "c06-r5-close-before-publish", Prop: "C06", File: "slave_connection.go",
-			Old: "\t\t\t\t_log.Errorf(\"startDumpFromBinlogPosition readBinlogEvent fail. reason: %v\", err)\n\t\t\t\ts.errChan <- err\n\t\t\t\tclose(s.errChan)\n",
-			New: "\t\t\t\t_log.Errorf(\"startDumpFromBinlogPosition readBinlogEvent fail. reason: %v\", err)\n\t\t\t\tclose(eventChan)\n\t\t\t\ts.errChan <- err\n\t\t\t\tclose(s.errChan)\n",
+			Old:    "\t\t\t\t_log.Errorf(\"startDumpFromBinlogPosition readBinlogEvent fail. reason: %v\", err)\n\t\t\t\ts.errChan <- err\n\t\t\t\tclose(s.errChan)\n",
+			New:    "\t\t\t\t_log.Errorf(\"startDumpFromBinlogPosition readBinlogEvent fail. reason: %v\", err)\n\t\t\t\tclose(eventChan)\n\t\t\t\ts.errChan <- err\n\t\t\t\tclose(s.errChan)\n",
 			Expect: "C06-R5 close-order@"},
 		Variant{ID: "c06-r7-derived-ctx-kept", Prop: "C06", File: "streamer.go",
 			Old: "\ts.ctx = ctx\n\tctx, cancel := context.WithCancel(ctx)\n\tdefer cancel()\n", New: "\tctx, cancel := context.WithCancel(ctx)\n\tdefer cancel()\n\ts.ctx = ctx\n",
@@ -195,7 +197,7 @@ func c06R3(a *A, r *Roles) {
 			for _, e := range errs {
 				n++
 				key := fmt.Sprintf("errcheck@%s[%s#%d]", f.Name(), shortCallee(c), n)
-				if c.IsInvoke() && c.Method.Name() == "Close" && f.Parent() == r.CloseConn {
+				if c.IsInvoke() && c.Method.Name() == "Close" && onceBodies(w, r.CloseConn)[f] {
 					a.hold(rule, key, w.posOf(in), "exception: best-effort dc.Close(), result has no consumer")
 					continue
 				}
@@ -229,10 +231,13 @@ func provablyNonNilCtor(f *ssa.Function) bool {
 	return true
 }
 
-// errHandled: e is returned directly, or tested against nil with the failure
-// edge leading only to returns whose error operand derives from e.
+// errHandled: e is returned directly, or tested against nil and every feasible path from the failure edge consumes it -
+// a return whose error operand derives from e, a channel send of a value deriving from e (goroutine bodies report through a
+// channel), or a call handing it to an in-package function that consumes that parameter on all its paths - before the
+// function exits or the fallible call is executed again (which would mean the loop went on as if nothing had happened).
+// Feasibility: e is non-nil on the failure edge, and so is every phi that takes e's value on the edge walked; nil tests of
+// such values are followed only in the direction they can take.
 func errHandled(e ssa.Value, f *ssa.Function) bool {
-	// direct return / derived return without test
 	direct := false
 	for _, ret := range returnsOf(f) {
 		for _, res := range ret.Results {
@@ -240,6 +245,12 @@ func errHandled(e ssa.Value, f *ssa.Function) bool {
 				direct = true
 			}
 		}
+	}
+	var origin ssa.Instruction
+	if ex, ok := e.(*ssa.Extract); ok {
+		origin, _ = ex.Tuple.(ssa.Instruction)
+	} else if c, ok := e.(*ssa.Call); ok {
+		origin = c
 	}
 	tested := false
 	okAll := true
@@ -257,52 +268,122 @@ func errHandled(e ssa.Value, f *ssa.Function) bool {
 		if nonNilOnTrue {
 			k = 0
 		}
-		fail := b.Succs[k]
-		// every exit of the failure region is a return carrying e; the region must not fall out
-		seen := map[*ssa.BasicBlock]bool{}
-		var walk func(x *ssa.BasicBlock)
-		walk = func(x *ssa.BasicBlock) {
-			if seen[x] {
-				return
-			}
-			seen[x] = true
-			if !edgeDominated(b, k, x) {
-				okAll = false // flows back into common code: error only logged / ignored
-				return
-			}
-			if ret, ok := lastInstr(x).(*ssa.Return); ok {
-				carried := false
-				for _, res := range ret.Results {
-					if isErrType(res.Type()) && derivesFrom(res, e, 0) {
-						carried = true
-					}
-				}
-				// goroutine bodies report through a channel send instead
-				if !carried {
-					for _, in := range x.Instrs {
-						if s, ok := in.(*ssa.Send); ok && derivesFrom(s.X, e, 0) {
-							carried = true
-						}
-					}
-				}
-				if !carried {
-					okAll = false
-				}
-				return
-			}
-			if _, ok := lastInstr(x).(*ssa.Panic); ok {
-				return
-			}
-			for _, s := range x.Succs {
-				walk(s)
-			}
+		if !consumedOnAllPaths(b, b.Succs[k], e, origin, 0) {
+			okAll = false
 		}
-		walk(fail)
 	}
 	if tested {
 		return okAll
 	}
 	return direct
+}
+
+// consumedOnAllPaths walks every feasible path that starts with the edge from->to.
+func consumedOnAllPaths(from, to *ssa.BasicBlock, e ssa.Value, origin ssa.Instruction, depth int) bool {
+	type key struct {
+		b     *ssa.BasicBlock
+		facts string
+	}
+	seen := map[key]bool{}
+	ok := true
+	var walk func(p, x *ssa.BasicBlock, facts map[ssa.Value]bool)
+	walk = func(p, x *ssa.BasicBlock, facts map[ssa.Value]bool) {
+		if !ok {
+			return
+		}
+		// phis taking a known non-nil value along this edge
+		nf := map[ssa.Value]bool{}
+		for v := range facts {
+			nf[v] = true
+		}
+		for i, pr := range x.Preds {
+			if pr != p {
+				continue
+			}
+			for _, in := range x.Instrs {
+				phi, isPhi := in.(*ssa.Phi)
+				if !isPhi {
+					break
+				}
+				if nf[resolve(phi.Edges[i])] || provablyNonNilErr(resolve(phi.Edges[i])) {
+					nf[phi] = true
+				} else {
+					delete(nf, phi)
+				}
+			}
+		}
+		var names []string
+		for v := range nf {
+			names = append(names, v.Name())
+		}
+		sort.Strings(names)
+		kk := key{x, strings.Join(names, ",")}
+		if seen[kk] || len(seen) > 5000 {
+			return
+		}
+		seen[kk] = true
+		for _, in := range x.Instrs {
+			if in == origin {
+				ok = false // the fallible call runs again: the failure was swallowed
+				return
+			}
+			switch y := in.(type) {
+			case *ssa.Send:
+				if derivesFrom(y.X, e, 0) {
+					return
+				}
+			case *ssa.Return:
+				for _, res := range y.Results {
+					if isErrType(res.Type()) && derivesFrom(res, e, 0) {
+						return
+					}
+				}
+				ok = false
+				return
+			case *ssa.Panic:
+				return
+			case *ssa.Call:
+				cal := y.Common().StaticCallee()
+				if cal != nil && cal.Blocks != nil && cal.Pkg == x.Parent().Pkg && depth < 2 {
+					for i, arg := range y.Common().Args {
+						if i < len(cal.Params) && isErrType(arg.Type()) && derivesFrom(arg, e, 0) && len(cal.Blocks) > 0 {
+							if consumesParam(cal, cal.Params[i], depth+1) {
+								return
+							}
+						}
+					}
+				}
+			}
+		}
+		if iff, isIf := lastInstr(x).(*ssa.If); isIf {
+			if v, nonNilOnTrue, isNT := nilTest(iff.Cond); isNT && (nf[v] || v == e) {
+				k := 1
+				if nonNilOnTrue {
+					k = 0
+				}
+				walk(x, x.Succs[k], nf)
+				return
+			}
+		}
+		if len(x.Succs) == 0 {
+			ok = false // falls off the function without consuming the error
+			return
+		}
+		for _, s := range x.Succs {
+			walk(x, s, nf)
+		}
+	}
+	walk(from, to, map[ssa.Value]bool{resolve(e): true})
+	return ok
+}
+
+// consumesParam: every path through f sends p on a channel, returns it, or hands it on to a function that does.
+func consumesParam(f *ssa.Function, p *ssa.Parameter, depth int) bool {
+	if len(f.Blocks) == 0 {
+		return false
+	}
+	// a virtual edge into the entry block
+	return consumedOnAllPaths(nil, f.Blocks[0], p, nil, depth)
 }
 
 func c06R4(a *A, r *Roles) {
